@@ -191,6 +191,8 @@ def merge_part(rep, part):
         rep.sample(s)
     if part.get("stats") is not None:
         explorer.STATS.merge(part["stats"])
+    for k, n in (part.get("counts") or {}).items():
+        rep.count(k, n)
 
 
 def run_jobs(rep, fn, jobs, nproc=None, timeout_s=600, merge=True):
